@@ -158,9 +158,31 @@ def benign(c, kind, a, tr, rnd):
         rev[i] = {"auto": bit, "hup": POLLHUP, "err": POLLERR}.get(tok, bit)
         return [1, 0, 0] + rev
     if kind == 3:
-        sends = sum(1 for k, x in tr if k == 3)
+        # short writes: the first send() of every Send with a LIMITED time-out takes all but one byte (so that a second round with its
+        # own poll and send follows, where faults are injected too); otherwise every third send is short by one byte
         ln = a[1]
-        return [ln if (sends % 3 != 1 or ln < 2) else ln - 1, 0]       # every third send is short by one byte
+        # the trace holds the probe's answer and what followed it: look only at what happened BEFORE the pending call
+        idx = sum(1 for k, _ in c.evs if k != 8)
+        pos, seen = len(tr), 0
+        for j, (k, x) in enumerate(tr):
+            if 1 <= k <= 7:
+                if seen == idx:
+                    pos = j
+                    break
+                seen += 1
+        before = tr[:pos]
+        nret = sum(1 for k, x in before if k == 20)
+        tops = top_ops(c)
+        sends_in_op = 0
+        for k, x in reversed(before):
+            if k == 20:
+                break
+            if k == 3:
+                sends_in_op += 1
+        if nret < len(tops) and tops[nret][0] % 1000 == 23 and len(tops[nret][1]) > 2 and tops[nret][1][2] > 0 and sends_in_op == 0 and ln >= 2:
+            return [ln - 1, 0]
+        sends = sum(1 for k, x in tr if k == 3)
+        return [ln if (sends % 3 != 1 or ln < 2) else ln - 1, 0]
     if kind == 4:
         recvs = sum(1 for k, x in tr if k == 4 and x[0] == a[0])
         if recvs >= 2:
